@@ -13,6 +13,7 @@ import (
 	"fmt"
 	"os"
 	"path/filepath"
+	"strings"
 	"sync"
 
 	"github.com/codenotary/immudb/pkg/api/schema"
@@ -34,6 +35,9 @@ type mitm struct {
 	pool   [][]byte
 	target string // full method suffix to tamper with
 	force  string // forced tamper kind for targeted probes ("" = random)
+	// last VerifiableGet exchange as seen by the client (after tampering), for the model correspondence
+	lastGetReq   *schema.VerifiableGetRequest
+	lastGetReply *schema.VerifiableEntry
 }
 
 func flipBytes(rng *hx.Rng, b []byte) []byte {
@@ -181,6 +185,14 @@ func (m *mitm) interceptor(ctx context.Context, method string, req, reply interf
 	err := invoker(ctx, method, req, reply, cc, opts...)
 	m.mu.Lock()
 	defer m.mu.Unlock()
+	defer func() {
+		if gr, ok := req.(*schema.VerifiableGetRequest); ok && err == nil {
+			if ge, ok := reply.(*schema.VerifiableEntry); ok {
+				m.lastGetReq = proto.Clone(gr).(*schema.VerifiableGetRequest)
+				m.lastGetReply = proto.Clone(ge).(*schema.VerifiableEntry)
+			}
+		}
+	}()
 	if err != nil || !m.armed {
 		return err
 	}
@@ -297,6 +309,7 @@ func c01Service(r *hx.Result, rng *hx.Rng, nOps int) error {
 	}
 	defer bs.Stop()
 	m := &mitm{rng: rng.Fork()}
+	stateOf := map[client.ImmuClient]func() (uint64, []byte){}
 	newClient := func(stateDir string) (client.ImmuClient, error) {
 		os.MkdirAll(stateDir, 0o755)
 		c := client.NewClient().WithOptions(client.DefaultOptions().WithDir(stateDir).
@@ -305,6 +318,17 @@ func c01Service(r *hx.Result, rng *hx.Rng, nOps int) error {
 				grpc.WithChainUnaryInterceptor(m.interceptor)}))
 		if err := c.OpenSession(context.Background(), []byte("immudb"), []byte("immudb"), "defaultdb"); err != nil {
 			return nil, err
+		}
+		stateOf[c] = func() (uint64, []byte) {
+			if err := c.StateService.CacheLock(); err != nil {
+				return 0, nil
+			}
+			defer c.StateService.CacheUnlock()
+			st, err := c.StateService.GetState(context.Background(), "defaultdb")
+			if err != nil || st == nil {
+				return 0, nil
+			}
+			return st.TxId, st.TxHash
 		}
 		return c, nil
 	}
@@ -459,6 +483,10 @@ func c01Service(r *hx.Result, rng *hx.Rng, nOps int) error {
 			var e *schema.Entry
 			var err error
 			atTx := uint64(0)
+			stTx0, stHash0 := stateOf[c]()
+			m.mu.Lock()
+			m.lastGetReq, m.lastGetReply = nil, nil
+			m.mu.Unlock()
 			if rng.Chance(40) && refs[key] == "" {
 				atTx = vs[rng.Intn(len(vs))].tx
 				e, err = c.VerifiedGetAt(ctx, []byte(key), atTx)
@@ -466,6 +494,7 @@ func c01Service(r *hx.Result, rng *hx.Rng, nOps int) error {
 				e, err = c.VerifiedGet(ctx, []byte(key))
 			}
 			kind := done()
+			emitCget(r, m, c, stateOf[c], stTx0, stHash0, err, kind)
 			r.Count("svc.vget." + okStr(err) + "." + kindOr(kind))
 			r.Eval(fmt.Sprintf("vget-%d-%s-%s-%d", op, kind, key, atTx), kind != "")
 			if err != nil && kind == "" {
@@ -522,17 +551,21 @@ func c01Service(r *hx.Result, rng *hx.Rng, nOps int) error {
 		}
 		for _, kind := range []string{"entry.value", "entry.key", "entry.tx"} {
 			atTx := vs[rng.Intn(len(vs))].tx
+			t0, h0 := stateOf[cl]()
 			arm(kind)
 			e, err := cl.VerifiedGetAt(ctx, []byte(key), atTx)
 			k := disarm()
+			emitCget(r, m, cl, stateOf[cl], t0, h0, err, k)
 			r.Count("svc.probe.vgetat." + okStr(err) + "." + kindOr(k))
 			r.Eval("probe-vgetat-"+key+kind, true)
 			if err == nil && k != "" {
 				checkEntry(cl, "client1", e, key, atTx, k)
 			}
+			t0, h0 = stateOf[cl]()
 			arm(kind)
 			e, err = cl.VerifiedGet(ctx, []byte(key))
 			k = disarm()
+			emitCget(r, m, cl, stateOf[cl], t0, h0, err, k)
 			r.Count("svc.probe.vget." + okStr(err) + "." + kindOr(k))
 			if err == nil && k != "" {
 				checkEntry(cl, "client1", e, key, 0, k)
@@ -540,9 +573,11 @@ func c01Service(r *hx.Result, rng *hx.Rng, nOps int) error {
 		}
 	}
 	for rk := range refs {
+		t0, h0 := stateOf[cl]()
 		arm("entry.value")
 		e, err := cl.VerifiedGet(ctx, []byte(rk))
 		k := disarm()
+		emitCget(r, m, cl, stateOf[cl], t0, h0, err, k)
 		r.Count("svc.probe.vget-ref." + okStr(err) + "." + kindOr(k))
 		r.Eval("probe-vget-ref-"+rk, true)
 		if err == nil && k != "" {
@@ -572,6 +607,76 @@ func c01Service(r *hx.Result, rng *hx.Rng, nOps int) error {
 	}
 	r.Sample(map[string]interface{}{"kind": "service-level", "ops": nOps, "keys": len(keys)})
 	return nil
+}
+
+// cgetLine renders the exchange the client saw (after tampering) for the Lean client-flow model.
+func cgetLine(stTx uint64, stHash []byte, req *schema.VerifiableGetRequest, rep *schema.VerifiableEntry) (line string, ok bool) {
+	defer func() {
+		if e := recover(); e != nil {
+			ok = false
+		}
+	}()
+	if rep == nil || rep.Entry == nil || rep.VerifiableTx == nil || rep.VerifiableTx.Tx == nil || rep.VerifiableTx.Tx.Header == nil ||
+		rep.VerifiableTx.DualProof == nil || rep.VerifiableTx.DualProof.SourceTxHeader == nil || rep.VerifiableTx.DualProof.TargetTxHeader == nil || rep.InclusionProof == nil {
+		return "", false
+	}
+	if len(stHash) == 0 {
+		stHash = make([]byte, 32)
+	}
+	mdBytes := func(md *schema.KVMetadata) []byte {
+		k := schema.KVMetadataFromProto(md)
+		if k == nil {
+			return nil
+		}
+		return k.Bytes()
+	}
+	e := rep.Entry
+	ref := "nil"
+	if e.ReferencedBy != nil {
+		ref = fmt.Sprintf("%d:%d:%s", e.ReferencedBy.Tx, e.ReferencedBy.AtTx, hx.Hex(mdBytes(e.ReferencedBy.Metadata)))
+	}
+	ip := schema.InclusionProofFromProto(rep.InclusionProof)
+	dp := schema.DualProofFromProto(rep.VerifiableTx.DualProof)
+	return fmt.Sprintf("c01 cget %d %s %s %d %s %s %s %d %s %d %d:%d:%s %s %s %s %s %s %s %s %s",
+		stTx, hx.Hex(stHash), hx.Hex(req.KeyRequest.Key), req.KeyRequest.AtTx,
+		hx.Hex(e.Key), hx.Hex(e.Value), hx.Hex(mdBytes(e.Metadata)), e.Tx, ref, rep.VerifiableTx.Tx.Header.Version,
+		ip.Leaf, ip.Width, hx.Csv32(ip.Terms),
+		hdrTok(dp.SourceTxHeader), hdrTok(dp.TargetTxHeader), hx.Csv32(dp.InclusionProof), hx.Csv32(dp.ConsistencyProof),
+		hx.Hex(dp.TargetBlTxAlh[:]), hx.Csv32(dp.LastInclusionProof), lpTok(dp.LinearProof), lapTok(dp.LinearAdvanceProof)), true
+}
+
+// emitCget: implementation verdict of the client flow vs the Lean model (verifiedGet)
+func emitCget(r *hx.Result, m *mitm, c client.ImmuClient, stateOf func() (uint64, []byte), stTx0 uint64, stHash0 []byte, err error, kind string) {
+	m.mu.Lock()
+	req, rep := m.lastGetReq, m.lastGetReply
+	m.mu.Unlock()
+	if req == nil || rep == nil || kind == "signature" {
+		return
+	}
+	if req.ProveSinceTx != stTx0 {
+		r.Count("svc.cget.skipped-state-race")
+		return
+	}
+	line, ok := cgetLine(stTx0, stHash0, req, rep)
+	if !ok {
+		r.Count("svc.cget.skipped-unrenderable")
+		return
+	}
+	var impl string
+	switch {
+	case err == nil:
+		tx, h := stateOf()
+		impl = fmt.Sprintf("ok %d %s", tx, hx.Hex(h))
+	case strings.Contains(err.Error(), "data is corrupted"):
+		impl = "err:corrupted"
+	case strings.Contains(err.Error(), "unsupported tx version"):
+		impl = "err:version"
+	default:
+		r.Count("svc.cget.skipped-other-error")
+		return
+	}
+	r.Corr(line, impl)
+	r.Count("svc.cget." + strings.SplitN(impl, " ", 2)[0])
 }
 
 func stripTx(t *schema.Tx) *schema.Tx {
